@@ -38,3 +38,72 @@ package webp
 //
 //@ func buildNRGBA
 //@   trusted
+//
+// ---- C20: option handling ----
+//
+// Documented defaults (field comments of EncoderOptions): a negative value
+// selects the default; for Segments and Pass zero does too.
+//@ pure func optDefault(v int, d int) int = v < 0 ? d : v
+//@ pure func optDefault0(v int, d int) int = v <= 0 ? d : v
+//
+//@ lemma resolversMatchDocumentation(v int)
+//@   property C20
+//@   ensures resolveSNSStrength(v) == optDefault(v, 50)
+//@   ensures resolveFilterStrength(v) == optDefault(v, 60)
+//@   ensures resolveFilterType(v) == optDefault(v, 1)
+//@   ensures resolveQMax(v) == optDefault(v, 100)
+//@   ensures resolveAlphaCompression(v) == optDefault(v, 1)
+//@   ensures resolveAlphaFiltering(v) == optDefault(v, 1)
+//@   ensures resolveAlphaQuality(v) == optDefault(v, 100)
+//
+// validateConfig accepts only the documented ranges (integer fields; the two
+// floating-point fields are outside the encoding, see DESIGN.md).
+//@ func validateConfig
+//@   property C20
+//@   requires opts != nil
+//@   modifies nothing
+//@   ensures result == nil ==> 0 <= opts.Method && opts.Method <= 6 && opts.TargetSize >= 0
+//@   ensures result == nil ==> 0 <= opts.Preprocessing && opts.Preprocessing <= 3
+//@   ensures result == nil ==> opts.SNSStrength <= 100 && opts.FilterStrength <= 100 && opts.FilterType <= 1
+//@   ensures result == nil ==> 0 <= opts.FilterSharpness && opts.FilterSharpness <= 7 && 0 <= opts.Partitions && opts.Partitions <= 3
+//@   ensures result == nil ==> opts.Segments <= 4 && opts.Pass <= 10
+//@   ensures result == nil ==> 0 <= opts.QMin && opts.QMin <= optDefault(opts.QMax, 100) && optDefault(opts.QMax, 100) <= 100
+//@   ensures result == nil ==> opts.AlphaCompression <= 1 && opts.AlphaFiltering <= 2 && opts.AlphaQuality <= 100
+//@   ensures result == nil ==> len(opts.ICC) <= 104857600 && len(opts.EXIF) <= 104857600 && len(opts.XMP) <= 104857600
+//@   ensures (opts.Method < 0 || opts.Method > 6 || opts.Segments > 4 || opts.Pass > 10 || opts.Partitions < 0 || opts.Partitions > 3) ==> result != nil
+//@   ensures (opts.FilterSharpness < 0 || opts.FilterSharpness > 7 || opts.QMin < 0 || opts.AlphaQuality > 100) ==> result != nil
+//
+// What the VP8 encoder is configured with: every sentinel resolves to its
+// documented default, so a sentinel and the explicit default hand the encoder
+// the same configuration.
+//@ func encodeLossyWithAlpha
+//@   property C20
+//@   requires opts != nil && img != nil
+//@   abstract imageHasAlpha, sharpYUVConvert, NewEncoder, NewEncoderFromYUV, ReleaseEncoder, EncodeFrame, extractAlphaWith, EncodeAlpha
+//@   callsite NewEncoder: assert cfg.SNSStrength == optDefault(opts.SNSStrength, 50) && cfg.FilterStrength == optDefault(opts.FilterStrength, 60)
+//@   callsite NewEncoder: assert cfg.FilterType == optDefault(opts.FilterType, 1) && cfg.FilterSharpness == opts.FilterSharpness && cfg.Partitions == opts.Partitions
+//@   callsite NewEncoder: assert cfg.Segments == optDefault0(opts.Segments, 4) && cfg.Pass == optDefault0(opts.Pass, 1)
+//@   callsite NewEncoder: assert cfg.QMin == opts.QMin && cfg.QMax == optDefault(opts.QMax, 100) && cfg.Method == opts.Method && cfg.Preprocessing == opts.Preprocessing
+//@   callsite NewEncoderFromYUV: assert cfg.SNSStrength == optDefault(opts.SNSStrength, 50) && cfg.FilterStrength == optDefault(opts.FilterStrength, 60)
+//@   callsite NewEncoderFromYUV: assert cfg.FilterType == optDefault(opts.FilterType, 1) && cfg.FilterSharpness == opts.FilterSharpness && cfg.Partitions == opts.Partitions
+//@   callsite NewEncoderFromYUV: assert cfg.Segments == optDefault0(opts.Segments, 4) && cfg.Pass == optDefault0(opts.Pass, 1)
+//@   callsite NewEncoderFromYUV: assert cfg.QMin == opts.QMin && cfg.QMax == optDefault(opts.QMax, 100) && cfg.Method == opts.Method
+//@   callsite EncodeAlpha: assert cfg.Quality == optDefault(opts.AlphaQuality, 100) && cfg.EffortLevel == opts.Method
+//@   callsite EncodeAlpha: assert (cfg.Method == 0 <==> optDefault(opts.AlphaCompression, 1) == 0)
+//@   callsite EncodeAlpha: assert (optDefault(opts.AlphaFiltering, 1) == 0 ==> cfg.Filter == 0) && (optDefault(opts.AlphaFiltering, 1) == 2 ==> cfg.Filter == lossy.AlphaFilterModeBest) && (optDefault(opts.AlphaFiltering, 1) == 1 ==> cfg.Filter == lossy.AlphaFilterModeFast)
+//
+// C15 / C20: the lossless paths receive the caller's options unchanged
+// (Exact, Quality, Method are the only fields they read), whether or not
+// metadata is present.
+//@ func Encode
+//@   property C15 C20
+//@   abstract encodeLosslessToWriter, encodeLossless, encodeLossyWithAlpha, writeRIFF
+//@   callsite encodeLossless: assert opts != nil && arg1.Exact == (old(opts) == nil ? false : old(opts).Exact) && arg1.Method == (old(opts) == nil ? 4 : old(opts).Method)
+//@   callsite encodeLosslessToWriter: assert opts != nil && arg2.Exact == (old(opts) == nil ? false : old(opts).Exact) && arg2.Method == (old(opts) == nil ? 4 : old(opts).Method)
+//
+// Assumed (2-D pixel loops outside the verifier's reach): the clean-up
+// returns a usable image (its argument or a fresh copy).
+//@ func cleanupTransparentAreaLossyWith
+//@   trusted
+//@   modifies nothing
+//@   ensures img != nil ==> result != nil
